@@ -102,8 +102,8 @@ func runCheck(repo, prop, tier string, opts SolveOpts) int {
 		os.WriteFile(rp, b, 0o644)
 		fmt.Printf("govc: %s\n", msg)
 		fmt.Printf("VIOLATION property=%s replay=%s obligation=engine#load-and-bind no-failing-input-found\n", prop, rp)
-		ev := Evidence{PropertyID: prop, Tier: tier, Seed: seed, Level: "proof", WallS: time.Since(t0).Seconds(), Violations: 1,
-			Coverage: map[string]interface{}{"obligations": 1, "discharged": 0, "checker_cmd": "govc check", "trusted_base": []string{}, "explanation": msg,
+		ev := Evidence{PropertyID: prop, Tier: tier, Seed: seed, Level: "proof", WallS: time.Since(t0).Seconds(), Violations: 1, Assumptions: []string{},
+			Coverage: map[string]interface{}{"obligations": 1, "discharged": 0, "checker_cmd": "govc check", "trusted_base": []string{}, "explanation": msg, "samples": []string{"engine#load-and-bind: " + msg},
 				"evaluations": 1, "distinct_nontrivial": 0}}
 		b, _ = json.MarshalIndent(ev, "", " ")
 		os.WriteFile(evPath, b, 0o644)
